@@ -71,6 +71,9 @@ PROP = dict(
             job("htlcswitch", "^TestVerifC07Switch$", [_SW], 500, shards=4),
             job("htlcswitch", "^TestVerifC07LinkLifecycle$", [_LC], 400, shards=4),
             job("htlcswitch", "^TestVerifC07Race$", [_RACE], 200, shards=2),
+            # duplicate re-forwards after a restart of a REAL link: the start-up replay of its forwarding
+            # packages (shared with C08; an acked ADD must never be reprocessed, an un-acked one exactly once)
+            job("htlcswitch", "^TestVerifC08FwdPkgReplay$", ["TestVerifC08FwdPkgReplay"], 60, shards=3),
         ],
         thorough=[
             job("htlcswitch", "^TestVerifC07CircuitMap$", [_CM], 4000, shards=8, timeout=900,
@@ -89,4 +92,5 @@ PROP = dict(
                 tags="verif kvdb_sqlite", env=dict(VERIF_C07_LCSTEPS=45)),
         ],
     ),
+    also=["C08"],
 )
